@@ -1369,7 +1369,7 @@ val need_blocks : call -> n
 
 val needs_inode : call -> bool
 
-val nospace_plausible : call -> n -> n -> bool
+val nospace_plausible : n -> call -> n -> n -> bool
 
 val cached_inode_ok : n -> disk -> n -> bytes -> bool
 
